@@ -19,6 +19,8 @@ for d in sorted(glob.glob('/verif/seeded/*/')):
 t = t.replace('@@FIXES@@', '\n'.join(fixes)).replace('@@KNOWN@@', '\n'.join(known)).replace('@@SEEDS@@', '\n'.join(seeds))
 missed = sum(1 for d in sorted(glob.glob('/verif/seeded/*-r[678]m*/')) if json.load(open(d + '/meta.json'))['detection'].startswith('missed'))
 t = t.replace('@@MISSED678@@', str(missed))
+missed9 = sum(1 for d in sorted(glob.glob('/verif/seeded/*-r9m*/')) if json.load(open(d + '/meta.json'))['detection'].startswith(('missed', 'no verdict')))
+t = t.replace('@@MISSED9@@', str(missed9))
 t = t.replace('@@NFIX@@', str(len(fixes))).replace('@@NKNOWN@@', str(len(known))).replace('@@NSEED@@', str(len(seeds)))
 open('/verif/DESIGN.md', 'w').write(t)
 print('fixes', len(fixes), 'known', len(known), 'seeds', len(seeds))
